@@ -13,30 +13,32 @@ import (
 	"go/token"
 	"os"
 	"path/filepath"
+	"regexp"
 	"strconv"
 	"strings"
 )
 
 type facts struct {
-	MatchKeySegs    []seg             `json:"match_key_segs"`
-	MatchKeyOK      bool              `json:"match_key_recognised"`
-	MatchHitValid   bool              `json:"match_hit_validated"`
-	MinHeaderLen    int               `json:"min_header_len"`
-	MinQueryLen     int               `json:"min_query_len"`
-	BearerPrefix    string            `json:"bearer_prefix"`
-	CookieName      string            `json:"default_cookie_name"`
-	OutBufferLength int               `json:"out_buffer_length"`
-	EscapeRune      int               `json:"sublist_escape"`
-	DelimRune       int               `json:"sublist_delim"`
-	SubReplacer     []string          `json:"sublist_replacer"`
-	EventReplacer   []string          `json:"event_replacer"`
-	EventFormats    []string          `json:"event_formats"`
-	IDEscapeFn      string            `json:"id_escape_fn"`
-	SysFlags        map[string]bool   `json:"sys_flags"`
-	CloseWalksAll   bool              `json:"close_walks_all"`
-	LegacyFlags     map[string]bool   `json:"legacy_flags"`
-	Consts          map[string]string `json:"consts"`
-	Errors          []string          `json:"errors"`
+	MatchKeySegs         []seg             `json:"match_key_segs"`
+	MatchKeyOK           bool              `json:"match_key_recognised"`
+	MatchHitValid        bool              `json:"match_hit_validated"`
+	MinHeaderLen         int               `json:"min_header_len"`
+	MinQueryLen          int               `json:"min_query_len"`
+	BearerPrefix         string            `json:"bearer_prefix"`
+	CookieName           string            `json:"default_cookie_name"`
+	OutBufferLength      int               `json:"out_buffer_length"`
+	EscapeRune           int               `json:"sublist_escape"`
+	DelimRune            int               `json:"sublist_delim"`
+	SubReplacer          []string          `json:"sublist_replacer"`
+	EventReplacer        []string          `json:"event_replacer"`
+	EventFormats         []string          `json:"event_formats"`
+	IDEscapeFn           string            `json:"id_escape_fn"`
+	SysFlags             map[string]bool   `json:"sys_flags"`
+	CloseWalksAll        bool              `json:"close_walks_all"`
+	CleanupUnsignedGuard bool              `json:"cleanup_unsigned_guard"`
+	LegacyFlags          map[string]bool   `json:"legacy_flags"`
+	Consts               map[string]string `json:"consts"`
+	Errors               []string          `json:"errors"`
 }
 
 type seg struct {
@@ -675,6 +677,40 @@ func (fa *facts) sysFlags(repo string) {
 		}
 	}
 	fa.CloseWalksAll = walksAll
+	// cleanup (bolt.go): the guard is the unsigned `t.size >= lastID`, the bound `lastID - t.size`, both on
+	// uint64, with no conversion to a signed type anywhere in the function (Model/Retention64.lean).
+	guard := false
+	if fd := funcDecl(bo, "BoltTransport", "cleanup"); fd != nil {
+		src := nodeString(fd)
+		hasGuard, hasBound := false, false
+		ast.Inspect(fd, func(n ast.Node) bool {
+			if b, ok := n.(*ast.BinaryExpr); ok {
+				if b.Op == token.GEQ && exprString(b.X) == "t.size" && exprString(b.Y) == "lastID" {
+					hasGuard = true
+				}
+				if b.Op == token.SUB && exprString(b.X) == "lastID" && exprString(b.Y) == "t.size" {
+					hasBound = true
+				}
+			}
+
+			return true
+		})
+		lastIDUint := false
+		for _, p := range fd.Type.Params.List {
+			for _, n := range p.Names {
+				if n.Name == "lastID" && exprString(p.Type) == "uint64" {
+					lastIDUint = true
+				}
+			}
+		}
+		guard = hasGuard && hasBound && lastIDUint && !regexp.MustCompile(`\bint(8|16|32|64)?\(`).MatchString(src)
+		if !guard {
+			fa.errf("bolt.go: cleanup: guard/bound shape not recognised (guard=%v bound=%v uint64=%v)", hasGuard, hasBound, lastIDUint)
+		}
+	} else {
+		fa.errf("bolt.go: cleanup not found")
+	}
+	fa.CleanupUnsignedGuard = guard
 }
 
 // legacyFlags: shape of config.go's ValidateConfig / NewHubFromViper.
@@ -770,6 +806,7 @@ func (fa *facts) lean() string {
 	fmt.Fprintf(&b, "def sysFlags : Mercure.Sys.Flags := ⟨%v, %v, %v, %v, %v, %v⟩\n", fa.SysFlags["closeOnOverflow"], fa.SysFlags["readyGuard"],
 		fa.SysFlags["disconnectRecheck"], fa.SysFlags["localMatchLocked"], fa.SysFlags["lastSeqOnOpen"], fa.SysFlags["cutBeforeDispatch"])
 	fmt.Fprintf(&b, "def closeWalksAll : Bool := %v\n", fa.CloseWalksAll)
+	fmt.Fprintf(&b, "def cleanupUnsignedGuard : Bool := %v\n", fa.CleanupUnsignedGuard)
 	fmt.Fprintf(&b, "def legacyFlags : Mercure.Config.LegacyFlags := ⟨%v, %v⟩\n", fa.LegacyFlags["requireSubscriberKey"], fa.LegacyFlags["zeroMeansDisabled"])
 	fmt.Fprintf(&b, "def extractionErrors : Nat := %d\n", len(fa.Errors))
 	b.WriteString("end Mercure.Facts\n")
